@@ -1,6 +1,7 @@
 package main
 
 import (
+	"crypto/sha256"
 	"fmt"
 	"sort"
 	"strings"
@@ -129,9 +130,15 @@ func (m *model) truncated(v int64) *model {
 
 const absent = "\x00<absent>"
 
+// str is the compared observation of a value: the bytes themselves up to 64 bytes, length + SHA-256 beyond
+// (part (d) reads values of up to 4 MiB several times per version and surface).
 func str(b []byte) string {
 	if b == nil {
 		return absent
+	}
+	if len(b) > 64 {
+		h := sha256.Sum256(b)
+		return fmt.Sprintf("<len=%d sha256=%x>", len(b), h[:16])
 	}
 	return string(b)
 }
@@ -142,7 +149,7 @@ func walk(st types.Store) (out map[string]string, err error) {
 	if rec := vk.Catch(func() {
 		it := st.Iterator(nil, nil, nil)
 		for ; it.Valid(); it.Next() {
-			out[string(it.Key())] = string(it.Value())
+			out[string(it.Key())] = str(it.Value())
 		}
 		if e := it.Error(); e != nil {
 			err = e
@@ -167,7 +174,7 @@ func gets(st types.Store) (out map[string]string, err error) {
 }
 
 // view builds the query-path immutable view of version v and returns Get and walk observations.
-func (s *sys) view(v int64) (get, wk map[string]string, err error) {
+func (s *sys) view(v int64, withWalk bool) (get, wk map[string]string, err error) {
 	var ims types.MultiStore
 	var release func()
 	if rec := vk.Catch(func() { ims, release, err = s.ms.MultiImmutableCacheWrapWithVersion(v) }); rec != nil {
@@ -178,7 +185,7 @@ func (s *sys) view(v int64) (get, wk map[string]string, err error) {
 	}
 	defer release()
 	st := ims.GetStore(s.key)
-	if get, err = gets(st); err != nil {
+	if get, err = gets(st); err != nil || !withWalk {
 		return
 	}
 	wk, err = walk(st)
@@ -264,10 +271,10 @@ func (s *sys) checkLive(m *model, out *[]mismatch, stats *stats) {
 	for _, k := range alphabet {
 		stats.reads++
 		if get[k] != expect(wk, k) {
-			*out = append(*out, mismatch{"stale-read:live", fmt.Sprintf("live Get(%s)=%q but the working-tree walk has %q", k, get[k], expect(wk, k))})
+			*out = append(*out, mismatch{"stale-read:live", fmt.Sprintf("live Get(%s)=%s but the working-tree walk has %s", k, show(get[k]), show(expect(wk, k)))})
 		}
 		if expect(wk, k) != expect(m.work, k) {
-			*out = append(*out, mismatch{"aux:tree-vs-model:live", fmt.Sprintf("working-tree walk %s=%q, model %q", k, expect(wk, k), expect(m.work, k))})
+			*out = append(*out, mismatch{"aux:tree-vs-model:live", fmt.Sprintf("working-tree walk %s=%s, model %s", k, show(expect(wk, k)), show(expect(m.work, k)))})
 		}
 	}
 }
@@ -292,8 +299,8 @@ func (s *sys) checkVersions(m *model, out *[]mismatch, stats *stats) {
 		return
 	}
 	for v := int64(1); v <= m.latest; v++ {
-		aget, _, aerr := ref.view(v)
-		fget, fwalk, ferr := s.view(v)
+		aget, _, aerr := ref.view(v, false)
+		fget, fwalk, ferr := s.view(v, true)
 		// every key at the latest version, one (rotating) key at older versions: each .store query builds a view of its own
 		qkeys := alphabet
 		if v != m.latest {
@@ -322,16 +329,16 @@ func (s *sys) checkVersions(m *model, out *[]mismatch, stats *stats) {
 			stats.reads += 2
 			want := aget[k]
 			if fget[k] != want {
-				*out = append(*out, mismatch{"stale-read:view", fmt.Sprintf("v%d Get(%s)=%q through the index, %q with the index off", v, k, fget[k], want)})
+				*out = append(*out, mismatch{"stale-read:view", fmt.Sprintf("v%d Get(%s)=%s through the index, %s with the index off", v, k, show(fget[k]), show(want))})
 			}
 			if fget[k] != expect(fwalk, k) {
-				*out = append(*out, mismatch{"stale-read:view-vs-walk", fmt.Sprintf("v%d Get(%s)=%q, leaf walk of the same view %q", v, k, fget[k], expect(fwalk, k))})
+				*out = append(*out, mismatch{"stale-read:view-vs-walk", fmt.Sprintf("v%d Get(%s)=%s, leaf walk of the same view %s", v, k, show(fget[k]), show(expect(fwalk, k)))})
 			}
 			if _, asked := qget[k]; qerr == nil && asked && qget[k] != want {
-				*out = append(*out, mismatch{"stale-read:store-query", fmt.Sprintf("v%d .store %s=%q, %q with the index off", v, k, qget[k], want)})
+				*out = append(*out, mismatch{"stale-read:store-query", fmt.Sprintf("v%d .store %s=%s, %s with the index off", v, k, show(qget[k]), show(want))})
 			}
 			if want != expect(m.committed[v], k) {
-				*out = append(*out, mismatch{"aux:tree-vs-model", fmt.Sprintf("v%d %s=%q with the index off, model %q", v, k, want, expect(m.committed[v], k))})
+				*out = append(*out, mismatch{"aux:tree-vs-model", fmt.Sprintf("v%d %s=%s with the index off, model %s", v, k, show(want), show(expect(m.committed[v], k)))})
 			}
 		}
 	}
